@@ -250,7 +250,9 @@ class Channel(BaseChannel):
                     break
                 if any(channel_output in search_buf for channel_output in channel_outputs):
                     break
-                if re.search(pattern=regex_channel_outputs_pattern, string=search_buf):
+                if channel_outputs and re.search(
+                    pattern=regex_channel_outputs_pattern, string=search_buf
+                ):
                     break
                 if re.search(pattern=search_pattern, string=search_buf):
                     break
